@@ -1720,3 +1720,63 @@ mod tests {
         assert!(tracker.last_activity.is_empty());
     }
 }
+
+/// Read-only projections and a keep-alive clock shift for the conformance harness
+/// (`--cfg litep2p_verif` only, see `src/verif/svc.rs`).
+#[cfg(litep2p_verif)]
+impl KeepAliveTracker {
+    /// Pretend that the keep-alive timeout of a tracked connection has elapsed: its last activity
+    /// is moved one timeout into the past and a timer that is already due is queued. The expiry
+    /// itself (and the downgrade) is then performed by the unchanged `poll_next` paths.
+    /// Returns `false` (and does nothing) if the connection is not tracked.
+    fn verif_expire(&mut self, peer: PeerId, connection_id: ConnectionId) -> bool {
+        let Some(past) = Instant::now().checked_sub(self.keep_alive_timeout) else {
+            return false;
+        };
+        match self.last_activity.get_mut(&(peer, connection_id)) {
+            Some(last) => *last = past,
+            None => return false,
+        }
+        self.pending_keep_alive_timeouts.push(Box::pin(async move { (peer, connection_id) }));
+        if let Some(waker) = self.waker.take() {
+            waker.wake()
+        }
+        true
+    }
+}
+
+#[cfg(litep2p_verif)]
+impl TransportService {
+    /// `(primary id, primary active, secondary id, secondary active)` of `peer`, if known.
+    pub fn verif_connections(&self, peer: &PeerId) -> Option<(usize, bool, Option<(usize, bool)>)> {
+        self.connections.get(peer).map(|context| {
+            (
+                context.primary.connection_id().verif_as_usize(),
+                context.primary.is_active(),
+                context
+                    .secondary
+                    .as_ref()
+                    .map(|handle| (handle.connection_id().verif_as_usize(), handle.is_active())),
+            )
+        })
+    }
+
+    /// Connections whose keep-alive timeout is being tracked, as `(peer, connection id)`.
+    pub fn verif_keep_alive_tracked(&self) -> Vec<(PeerId, usize)> {
+        self.keep_alive_tracker
+            .last_activity
+            .keys()
+            .map(|(peer, connection)| (*peer, connection.verif_as_usize()))
+            .collect()
+    }
+
+    /// Value the shared substream id allocator will hand out next.
+    pub fn verif_next_substream_id(&self) -> usize {
+        self.next_substream_id.load(Ordering::Relaxed)
+    }
+
+    /// See [`KeepAliveTracker::verif_expire`].
+    pub fn verif_expire_keep_alive(&mut self, peer: PeerId, connection_id: usize) -> bool {
+        self.keep_alive_tracker.verif_expire(peer, ConnectionId::from(connection_id))
+    }
+}
